@@ -1446,6 +1446,14 @@ class Node:
             # only set if not yet set
             if peer.disconnect_reason is None:
                 peer.disconnect_reason = disconnect_reason
+            # a second connection of the same peer that has completed its
+            # capabilities exchange takes over, the peer is still connected
+            for other_conn in self.connections.values():
+                if (conn.host_identity and
+                        other_conn.host_identity == conn.host_identity and
+                        other_conn.state in PEER_READY_STATES):
+                    self._assign_peer_connection(other_conn)
+                    break
 
         # Remove pending answer tracking; we cannot know if the peer will
         # persist its hop-by-hop IDs over reconnect.
